@@ -141,6 +141,7 @@ def pval(p):
 def wfn(w):
   _, base, *_ = lib()
   if w == 0: return lambda xs: [1.0] * len(xs)
+  if w == 2: return lambda xs: [float(base.get_fitness(x)) for x in xs]          # the fitness itself as weight (zeros included)
   return lambda xs: [base.get_fitness(x) + 0.25 for x in xs]
 
 def node_where(nw):
@@ -707,7 +708,7 @@ def gen_n(rng, big=6):
 def gen_selector(rng):
   k = rng.randrange(7)
   if k == 0: return [0, gen_n(rng), rng.randint(0, 1)]
-  if k in (1, 2): return [k, gen_n(rng), rng.randint(0, 1)]
+  if k in (1, 2): return [k, gen_n(rng), rng.choice([0, 1, 2])]
   if k in (3, 4): return [k, gen_n(rng), rng.randint(0, 1)]
   return [k, gen_n(rng)]
 
@@ -769,7 +770,7 @@ def prim_catalog():
   """Every operator class x parameterisation (the systematic part of the sweep)."""
   sels = []
   for n in ([0, 0], [0, 1], [0, 2], [0, 5], [1, 1, 1], [1, 3, 2], [2]):
-    sels += [[0, n, 0], [0, n, 1], [1, n, 0], [1, n, 1], [2, n, 0], [2, n, 1], [3, n, 0], [3, n, 1], [4, n, 0], [4, n, 1], [5, n], [6, n]]
+    sels += [[0, n, 0], [0, n, 1], [1, n, 0], [1, n, 1], [1, n, 2], [2, n, 0], [2, n, 1], [2, n, 2], [3, n, 0], [3, n, 1], [4, n, 0], [4, n, 1], [5, n], [6, n]]
   muts = [[m, w] for m in (0, 1) for w in (NW_ALL, [1, 0, 0], [0, 1, 0])]
   recs = [[0, kd, w, wf] for kd in range(4) for w in ([0], [1, 1], [1, 2], [2]) for wf in (0, 1)]
   recs2 = [[1, k] for k in (1, 2, 3)] + [[2, c] for c in ([], [1], [1, 2], [2, 1], [0, 9])] + \
@@ -840,6 +841,9 @@ def run(ctx):
   for _ in range(ctx.scale(500, 8000)):
     fk, s = rng.choice(fam)
     add('expression/' + fk, s, gen_expr(rng, rng.choice([2, 3, 3, 4, 4])), gen_pop(rng, s, rng.choice([0, 1, 2, 3, 4, 6]), fres=rng.randrange(12)))
+  # (W) systematic weights: ties, near-ties, zeros, one dominant
+  for s, expr, pop in weight_cases(ctx, rng):
+    add('weights/' + prim_names(expr)[0].split('.')[-1], s, expr, pop)
   # (C) oracle only: float ranges / values off the model's 1/64 grid
   for s, expr, pop in nondyadic_cases(rng, ctx.scale(60, 600)):
     add('oracle-only/nondyadic-floats', s, expr, pop)
@@ -848,19 +852,28 @@ def run(ctx):
   import os, time
   nproc = min(12, os.cpu_count() or 1)
   # wall-clock guard of the quick tier: the systematic part always runs; the random expressions are cut to what fits
-  first = [c for c in cases if not c['kind'].startswith('expression/')]
-  rest = [c for c in cases if c['kind'].startswith('expression/')]
-  t0 = time.time()
-  results = run_jobs(process_case, first, nproc)
-  dt = time.time() - t0
-  if not ctx.thorough and first:
-    budget = 95.0 - (time.time() - ctx.t0)
-    fit = int(max(budget, 0) / max(dt / len(first), 1e-4) * 0.6)      # expressions cost about 1.6x a primitive case
-    if fit < len(rest):
-      ctx.log('wall-clock guard: %d of %d random expressions run' % (max(fit, 0), len(rest))); ctx.extra['wall_clock_guard'] = dict(expressions_generated=len(rest), expressions_run=max(fit, 0))
-      rest = rest[:max(fit, 0)]
-  results += run_jobs(process_case, rest, nproc)
-  cases = first + rest
+  corpus_cases = [c for c in cases if c['kind'].startswith('corpus:') or 'corpus:' in c['kind']]
+  cid = set(id(c) for c in corpus_cases)
+  groups = {}
+  for c in cases:
+    if id(c) not in cid: groups.setdefault(id(c['spec']), []).append(c)       # one group per specification object (workers cache the built spec)
+  groups = list(groups.values())
+  if not ctx.thorough: rng.shuffle(groups)       # every slice is a sample of the families; slices run while the clock allows
+  slices, cur = [], list(corpus_cases)
+  for g in groups:
+    for i in range(0, len(g), 120):              # big groups (weights, empty space) are spread too
+      cur += g[i:i + 120]
+      if len(cur) >= 500: slices.append(cur); cur = []
+  if cur: slices.append(cur)
+  done, results, skipped = [], [], 0
+  for k, sl in enumerate(slices):
+    if not ctx.thorough and k > 0 and time.time() - ctx.t0 > 45.0:
+      skipped += len(sl); continue
+    results += run_jobs(process_case, sl, nproc); done += sl
+  if skipped:
+    ctx.log('wall-clock guard: %d of %d generated cases not run' % (skipped, len(cases)))
+    ctx.extra['wall_clock_guard'] = dict(cases_generated=len(cases), cases_run=len(done))
+  cases = done
   trs, impl, descr = [], [], []
   inexact = 0
   checked = sum(r['contract'][0] for r in results); broken = [b for r in results for b in r['contract'][1]]
@@ -884,15 +897,23 @@ def run(ctx):
   lookup = {id(t): d for t, d in zip(trs, descr)}
   bad = ctx.compare('EvoRun.run vs pyglove.ext.evolution (recorded PRNG)', trs, impl, outs, describe=lambda t: lookup.get(id(t)))
   ctx.exhaustive = False
+  partition_sweep(ctx, rng)
   ctx.extra['crossover_sweep'] = dict(exhaustive=True, max_values=ctx.scale(4, 5), evaluations=crossover_sweep(ctx, ctx.scale(4, 5)),
                                       what='every pair of parent permutations x every pair of cutting points (PMX, Order) / every coin-flip sequence (Cycle): proposals are permutations')
-  ctx.extra['evolution_loop_cases'] = evolution_loop_sweep(ctx, rng, ctx.scale(60, 600))
-  ctx.extra['nsga2_operator_cases'] = nsga2_sweep(ctx, rng, ctx.scale(150, 2000))
+  def left(full):
+    """Quick tier on a busy machine: the sweeps after the correspondence shrink with the time that is left (reported)."""
+    if ctx.thorough: return full
+    import time
+    f = min(1.0, max(0.15, (90.0 - (time.time() - ctx.t0)) / 45.0))
+    if f < 1.0: ctx.extra.setdefault('wall_clock_guard_sweeps', []).append(round(f, 2))
+    return max(1, int(full * f))
+  ctx.extra['evolution_loop_cases'] = evolution_loop_sweep(ctx, rng, left(ctx.scale(60, 600)))
+  ctx.extra['nsga2_operator_cases'] = nsga2_sweep(ctx, rng, left(ctx.scale(150, 2000)))
   ctx.extra['systematic_sweep'] = dict(mode_specs=len(mode_specs()), selectors=len(sels), mutators=len(muts), pointwise=len(recs), two_parent=len(recs2))
   # chained closure search, always on (small budget): sparse and dense constrained multi-choices, also beyond the model's 8 candidates
   chain_specs = [s for s in sparse_specs(12) if len(s[1]) == 1] + [('S', [C(2, [E] * 3, True, False, 'm')]), ('S', [C(3, [E] * 3, True, True, 'm')])]
-  chain_search(ctx, rng, chain_specs, CHAIN_OPS[:2], ctx.scale(2, 24), ctx.scale(25, 60), 'always/mutators')
-  chain_search(ctx, rng, rng.sample(chain_specs, ctx.scale(6, len(chain_specs))), CHAIN_OPS[2:], ctx.scale(1, 8), ctx.scale(15, 40), 'always/recombinators')
+  chain_search(ctx, rng, chain_specs, CHAIN_OPS[:2], ctx.scale(2, 24), left(ctx.scale(25, 60)), 'always/mutators')
+  chain_search(ctx, rng, rng.sample(chain_specs, ctx.scale(6, len(chain_specs))), CHAIN_OPS[2:], ctx.scale(1, 8), left(ctx.scale(15, 40)), 'always/recombinators')
   # targeted: when the correspondence of a randomised operator broke and nothing failed yet, chain the operators of the
   # disagreeing cases on their own specifications (and on the sparse family) over many seeds and generations
   if ctx.is_broken() and not ctx.hits and bad:
@@ -1160,6 +1181,67 @@ def shrink_case(case, sig):
       if fails(c): cur = c; changed = True; break
   return cur
 
+# ------------------------------------------------------------------------------------------------
+# systematic weight sweep (Proportional / Sample / Top / Bottom): ties, near-ties, zeros, one dominant weight
+WEIGHT_ALPHABET = [0, 1, 2, 3, 4, 5, 9, 10]
+W_SPEC = ('S', [C(1, [E, E, E, E], False, False, 'x')])
+
+def partition_vectors(ctx, rng):
+  """(weights, n) for Proportional._partition: exhaustive over the alphabet up to a length, sampled beyond."""
+  import itertools
+  out = []
+  full = ctx.scale(3, 5)
+  for ln in range(2, full + 1):
+    for ws in itertools.product(WEIGHT_ALPHABET, repeat=ln):
+      for n in range(0, 2 * ln + 1): out.append((list(ws), n))
+  for _ in range(ctx.scale(6000, 300000)):
+    ln = rng.randint(full + 1, 6) if full < 6 else 6
+    out.append(([rng.choice(WEIGHT_ALPHABET) for _ in range(ln)], rng.randint(0, 2 * ln)))
+  return out, full
+
+def partition_sweep(ctx, rng):
+  """Proportional._partition on the implementation against the model's [partition] and the count oracle
+  (the allocations are non-negative and add up to n) on every vector."""
+  pg, base, M, R, S, W = lib()
+  sel = S.Proportional(None, weights=lambda xs: [1.0] * len(xs))
+  vecs, full = partition_vectors(ctx, rng)
+  trs, impl = [], []
+  for ws, n in vecs:
+    try:
+      al = sel._partition([float(w) for w in ws], n)
+      impl.append([1, [int(a) for a in al]])
+      if sum(al) != n or any(a < 0 for a in al):
+        ctx.hit('C14/selector-count/selectors.Proportional/partition-%s' % ('negative-slot' if any(a < 0 for a in al) else 'wrong-total'),
+                'Proportional._partition(%r, %d) = %r: %s' % (ws, n, al, 'a slot is negative (the positive ones give %d items)' % sum(a for a in al if a > 0) if any(a < 0 for a in al) else 'the allocations add up to %d' % sum(al)),
+                dict(kind='partition', weights=ws, n=n))
+    except Exception as e:   # pylint: disable=broad-except
+      impl.append([0, err_code(e)])
+      if not isinstance(e, ZeroDivisionError):
+        ctx.hit('C14/raises/selectors.Proportional/%s' % msg_key(e), 'Proportional._partition(%r, %d) raises %s: %s' % (ws, n, type(e).__name__, e), dict(kind='partition', weights=ws, n=n))
+    trs.append([5, ws, n])
+  outs = ctx.model_run(trs, vm_sample=ctx.scale(20, 100))
+  ctx.compare('EvoOps.partition vs selectors.Proportional._partition', trs, impl, outs, describe=lambda t: dict(kind='partition', weights=t[1], n=t[2]))
+  for t in trs[:: max(1, len(trs) // 2000)]: ctx.count(trlib.to_line(t), nontrivial=sum(1 for w in t[1] if w) >= 2 and t[2] > 0, kind='partition-sweep')
+  ctx.extra['partition_sweep'] = dict(vectors=len(trs), alphabet=WEIGHT_ALPHABET, exhaustive_up_to_length=full, n_range='0..2*len',
+                                      what='Proportional._partition: implementation vs model on every vector, allocations non-negative and adding up to n')
+
+def weight_cases(ctx, rng):
+  """Selector-level cases on populations whose fitness values come from the weight alphabet: Proportional / Sample with the
+  fitness itself and fitness + 0.25 as weights, Top / Bottom with and without clusters, n from 0 to 2 * len."""
+  out = []
+  for _ in range(ctx.scale(500, 6000)):
+    ln = rng.randint(2, 6)
+    kind = rng.random()
+    if kind < 0.2: fits = [rng.choice([1, 5, 5, 4])] * ln                                     # all equal
+    elif kind < 0.4: fits = [rng.choice([0, 1, 1, 2]) for _ in range(ln - 1)] + [rng.choice([9, 10])]   # one dominant
+    else: fits = [rng.choice(WEIGHT_ALPHABET) for _ in range(ln)]
+    rng.shuffle(fits)
+    pop = [['d', i, [('c', [(rng.randrange(4), [])])], float(f)] for i, f in enumerate(fits)]
+    n = [0, rng.randint(0, 2 * ln)]
+    sl = rng.choice([[2, n, 2], [2, n, 2], [2, n, 1], [1, n, 2], [1, n, 1], [3, n, 0], [3, n, 1], [4, n, 0], [4, n, 1]])
+    out.append((W_SPEC, P([0, sl]), pop))
+  return out
+
 def process_case(c):
   """One case in a worker process: run the implementation with the recorder, evaluate the oracle.  Never raises:
   whatever the library does on an input inside the property's quantifier is an outcome / an oracle hit with the case as replay."""
@@ -1190,6 +1272,17 @@ def run_jobs(fn, jobs, nproc):
 
 def replay(ctx, rp):
   c = rp['case']
+  if c.get('kind') == 'partition':
+    pg, base, M, R, S, W = lib()
+    try:
+      al = S.Proportional(None, weights=lambda xs: [1.0] * len(xs))._partition([float(w) for w in c['weights']], c['n'])
+      ok = sum(al) == c['n'] and all(a >= 0 for a in al)
+      if not ok: print('  still fails: _partition(%r, %d) = %r' % (c['weights'], c['n'], al))
+      return ok
+    except ZeroDivisionError:
+      return True
+    except Exception as e:   # pylint: disable=broad-except
+      print('  still fails:', type(e).__name__, e); return False
   if c.get('kind') == 'evolution-loop':
     hits = evolution_loop_check(c['spec'], c['expr'], c['seed'], c['rewards'])
     for h in hits: print('  still fails:', h)
